@@ -425,6 +425,13 @@ class C07(Property):
                ' N ' + ','.join(sorted(urlutils.NO_NETLOC_SCHEMES))
         if out != want:
             raise InfraError('generated scheme tables differ from the live module: %r vs %r' % (out[:200], want[:200]))
+        # the desugaring pre-pass of the source translator (harness/py2lean_prepass.py): rewritten functions
+        # against the originals in CPython, and the refusal cases
+        import py2lean_prepass_selftest
+        n_pp, problems = py2lean_prepass_selftest.run()
+        if problems:
+            raise InfraError('py2lean_prepass self-test: ' + '; '.join(problems[:3]))
+        self.stats['prepass_selftest_comparisons'] = n_pp
         # the oracle itself against the RFC's own table of examples (section 5.4), kept in the corpus
         for c in self.corpus():
             if 'rfc_expect' in c:
